@@ -1,8 +1,6 @@
 package main
 
 import (
-	"encoding/hex"
-	"errors"
 	"fmt"
 	"math/rand"
 	"strconv"
@@ -11,154 +9,23 @@ import (
 
 	"github.com/drshriveer/gtools/gerror"
 	"verif/harness/cmd/h-gerrclone/sites"
+	"verif/harness/cmd/h-gerrclone/wire"
 	"verif/harness/internal/hx"
 )
 
-// ---- wire encoding -------------------------------------------------------------------------
+// aliases into the shared wire package
+type elemSpec = wire.ElemSpec
 
-func enc(s string) string {
-	if s == "" {
-		return "-"
-	}
-	return hex.EncodeToString([]byte(s))
-}
-
-func dec(w string) (string, bool) {
-	if w == "-" {
-		return "", true
-	}
-	b, err := hex.DecodeString(w)
-	if err != nil {
-		return "", false
-	}
-	return string(b), true
-}
-
-func encFrames(fr []string) string {
-	var parts []string
-	for i := 0; i < len(fr); {
-		j := i
-		for j < len(fr) && fr[j] == fr[i] {
-			j++
-		}
-		if j-i > 1 {
-			parts = append(parts, enc(fr[i])+"*"+strconv.Itoa(j-i))
-		} else {
-			parts = append(parts, enc(fr[i]))
-		}
-		i = j
-	}
-	return strings.Join(parts, ",")
-}
-
-// elems of a Sprintf call / the error handed to Convert, as a protocol word (ignored by the model)
-type elemSpec struct {
-	kind string // i s f n e l | conv: new wrap nil custom ptr
-	val  string
-}
-
-type customErr struct{ msg string }
-
-func (c customErr) Error() string { return c.msg }
-
-type ptrErr struct{ msg string }
-
-func (c *ptrErr) Error() string { return c.msg }
-
-func encElems(es []elemSpec) string {
-	if len(es) == 0 {
-		return "E:"
-	}
-	p := make([]string, len(es))
-	for i, e := range es {
-		p[i] = e.kind + enc(e.val)
-	}
-	return "E:" + strings.Join(p, ",")
-}
-
-func decElems(w string) ([]elemSpec, bool) {
-	if !strings.HasPrefix(w, "E:") {
-		return nil, false
-	}
-	w = w[2:]
-	if w == "" {
-		return nil, true
-	}
-	var out []elemSpec
-	for _, p := range strings.Split(w, ",") {
-		if len(p) < 2 {
-			return nil, false
-		}
-		v, ok := dec(p[1:])
-		if !ok {
-			return nil, false
-		}
-		out = append(out, elemSpec{p[:1], v})
-	}
-	return out, true
-}
-
-func (e elemSpec) value() any {
-	switch e.kind {
-	case "i":
-		n, _ := strconv.Atoi(e.val)
-		return n
-	case "s":
-		return e.val
-	case "f":
-		f, _ := strconv.ParseFloat(e.val, 64)
-		return f
-	case "n":
-		return nil
-	case "e":
-		return errors.New(e.val)
-	case "l":
-		return []string{e.val, "z"}
-	}
-	return nil
-}
-
-// the error handed to Convert/ConvertS
-func (e elemSpec) errValue() error {
-	switch e.kind {
-	case "N":
-		return errors.New(e.val)
-	case "W":
-		return fmt.Errorf("wrapped: %w", errors.New(e.val))
-	case "Z":
-		return nil
-	case "C":
-		return customErr{e.val}
-	case "P":
-		return &ptrErr{e.val}
-	}
-	return nil
-}
-
-// ---- implementation side -------------------------------------------------------------------
-
-// positional string parameters of each method (the part of the wiring the harness needs to
-// *call* the method; what the method then does with them is what is being checked)
-var paramRoles = map[string][]string{
-	"Base": {}, "SourceOnly": {}, "Stack": {},
-	"Src": {"src"}, "DTag": {"dtag"}, "Msg": {"fmt"},
-	"SrcDTagMsg": {"src", "dtag", "fmt"}, "SrcDTag": {"src", "dtag"}, "SrcMsg": {"src", "fmt"}, "DTagMsg": {"dtag", "fmt"},
-	"SrcS": {"src"}, "DTagS": {"dtag"}, "MsgS": {"fmt"},
-	"SrcDTagMsgS": {"src", "dtag", "fmt"}, "SrcDTagS": {"src", "dtag"}, "SrcMsgS": {"src", "fmt"}, "DTagMsgS": {"dtag", "fmt"},
-	"Convert": {}, "ConvertS": {},
-}
-
-var methodNames = []string{"Base", "SourceOnly", "Stack", "Src", "DTag", "Msg", "SrcDTagMsg", "SrcDTag", "SrcMsg", "DTagMsg",
-	"SrcS", "DTagS", "MsgS", "SrcDTagMsgS", "SrcDTagS", "SrcMsgS", "DTagMsgS", "Convert", "ConvertS"}
-
-func hasRole(m, role string) bool {
-	for _, r := range paramRoles[m] {
-		if r == role {
-			return true
-		}
-	}
-	return false
-}
+var (
+	enc         = wire.Enc
+	dec         = wire.Dec
+	encFrames   = wire.EncFrames
+	encElems    = wire.EncElems
+	obsOf       = wire.ObsOf
+	paramRoles  = wire.ParamRoles
+	methodNames = wire.MethodNames
+	hasRole     = wire.HasRole
+)
 
 type geImpl struct {
 	regs map[int]gerror.Error
@@ -166,7 +33,9 @@ type geImpl struct {
 	g    *sites.G[int]
 }
 
-func newGeImpl() *geImpl { return &geImpl{regs: map[int]gerror.Error{}, t: &sites.T{}, g: &sites.G[int]{}} }
+func newGeImpl() *geImpl {
+	return &geImpl{regs: map[int]gerror.Error{}, t: &sites.T{}, g: &sites.G[int]{}}
+}
 
 func (im *geImpl) Reset() { im.regs = map[int]gerror.Error{} }
 
@@ -211,13 +80,6 @@ func dispatchSite(t *sites.T, g *sites.G[int], site string, f gerror.Factory, c 
 		return sites.Deep(n, f, c)
 	}
 	return nil, nil
-}
-
-func obsOf(e gerror.Error) string {
-	if e == nil {
-		return "nil"
-	}
-	return fmt.Sprintf("n=%s m=%s s=%s d=%s k=%d", enc(e.ErrName()), enc(e.ErrMessage()), enc(e.ErrSource()), enc(e.ErrDetailTag()), len(e.ErrStack()))
 }
 
 func (im *geImpl) Exec(line string) string {
@@ -315,66 +177,16 @@ func (im *geImpl) execCall(ws []string) string {
 	}
 	d, e1 := strconv.Atoi(ws[0])
 	r, e2 := strconv.Atoi(ws[1])
-	m, site := ws[2], ws[3]
-	roles, known := paramRoles[m]
-	if e1 != nil || e2 != nil || !known || !strings.HasPrefix(ws[4], "F:") || !strings.HasPrefix(ws[5], "P:") || !strings.HasPrefix(ws[6], "S:") {
+	if e1 != nil || e2 != nil {
 		return "bad-op"
 	}
-	formatted, ok := dec(ws[4][2:])
-	if !ok {
-		return "bad-op"
-	}
-	var params []string
-	if p := ws[5][2:]; p != "" {
-		for _, w := range strings.Split(p, ",") {
-			v, ok := dec(w)
-			if !ok {
-				return "bad-op"
-			}
-			params = append(params, v)
-		}
-	}
-	if len(params) != len(roles) {
-		return "bad-op"
-	}
-	elems, ok := decElems(ws[7])
-	if !ok {
-		return "bad-op"
+	c, site, frames, problem := wire.ParseCall(ws[2:])
+	if problem != "" {
+		return problem
 	}
 	base, ok := im.regs[r]
 	if !ok {
 		return "bad-reg"
-	}
-	c := &sites.Call{Method: m}
-	for i, role := range roles {
-		switch role {
-		case "src":
-			c.Src = params[i]
-		case "dtag":
-			c.DTag = params[i]
-		case "fmt":
-			c.Format = params[i]
-		}
-	}
-	switch {
-	case m == "Convert" || m == "ConvertS":
-		if len(elems) != 1 {
-			return "bad-op"
-		}
-		c.Err = elems[0].errValue()
-		if _, isG := c.Err.(gerror.Error); isG {
-			return "bad-op"
-		}
-		if fmt.Sprintf("%+v", c.Err) != formatted {
-			return "fmt-mismatch"
-		}
-	case hasRole(m, "fmt"):
-		for _, e := range elems {
-			c.Elems = append(c.Elems, e.value())
-		}
-		if fmt.Sprintf(c.Format, c.Elems...) != formatted {
-			return "fmt-mismatch"
-		}
 	}
 	res, fr, panicked := callSite(im.t, im.g, site, base.(gerror.Factory), c)
 	if panicked {
@@ -383,7 +195,7 @@ func (im *geImpl) execCall(ws []string) string {
 	if res == nil {
 		return "bad-op"
 	}
-	if encFrames(fr) != ws[6][2:] {
+	if encFrames(fr) != frames {
 		return "frames-mismatch"
 	}
 	im.regs[d] = res
@@ -432,17 +244,17 @@ func randElems(rng *rand.Rand) []elemSpec {
 	for i := 0; i < n; i++ {
 		switch rng.Intn(6) {
 		case 0:
-			es = append(es, elemSpec{"i", strconv.Itoa(rng.Intn(2000) - 1000)})
+			es = append(es, elemSpec{Kind: "i", Val: strconv.Itoa(rng.Intn(2000) - 1000)})
 		case 1:
-			es = append(es, elemSpec{"s", randArg(rng)})
+			es = append(es, elemSpec{Kind: "s", Val: randArg(rng)})
 		case 2:
-			es = append(es, elemSpec{"f", []string{"1.5", "-0.25", "1e21", "3"}[rng.Intn(4)]})
+			es = append(es, elemSpec{Kind: "f", Val: []string{"1.5", "-0.25", "1e21", "3"}[rng.Intn(4)]})
 		case 3:
-			es = append(es, elemSpec{"n", ""})
+			es = append(es, elemSpec{Kind: "n"})
 		case 4:
-			es = append(es, elemSpec{"e", randText(rng, 2)})
+			es = append(es, elemSpec{Kind: "e", Val: randText(rng, 2)})
 		default:
-			es = append(es, elemSpec{"l", randText(rng, 2)})
+			es = append(es, elemSpec{Kind: "l", Val: randText(rng, 2)})
 		}
 	}
 	return es
@@ -505,7 +317,7 @@ func (g *c15gen) callLine(d, r int, m string, corrupt bool) (line string, nonbla
 		elems = randElems(rng)
 		vals := make([]any, len(elems))
 		for i, e := range elems {
-			vals[i] = e.value()
+			vals[i] = e.Value()
 		}
 		formatted = fmt.Sprintf(format, vals...)
 		if strings.TrimSpace(formatted) != "" {
@@ -513,12 +325,12 @@ func (g *c15gen) callLine(d, r int, m string, corrupt bool) (line string, nonbla
 		}
 	}
 	if m == "Convert" || m == "ConvertS" {
-		e := elemSpec{[]string{"N", "W", "Z", "C", "P"}[rng.Intn(5)], randArg(rng)}
-		if e.kind == "Z" {
-			e.val = ""
+		e := elemSpec{Kind: []string{"N", "W", "Z", "C", "P"}[rng.Intn(5)], Val: randArg(rng)}
+		if e.Kind == "Z" {
+			e.Val = ""
 		}
 		elems = []elemSpec{e}
-		formatted = fmt.Sprintf("%+v", e.errValue())
+		formatted = fmt.Sprintf("%+v", e.ErrValue())
 		nonblank = true
 	}
 	if corrupt && len(params) > 0 {
@@ -526,7 +338,7 @@ func (g *c15gen) callLine(d, r int, m string, corrupt bool) (line string, nonbla
 		if hasRole(m, "fmt") {
 			vals := make([]any, len(elems))
 			for i, e := range elems {
-				vals[i] = e.value()
+				vals[i] = e.Value()
 			}
 			for i, role := range paramRoles[m] {
 				if role == "fmt" {
